@@ -72,7 +72,7 @@ def surface(name="wing", nx=2, ny=3, symmetry=True, side="left", model="tube", g
     if model == "wingbox":
         d.update({
             "data_x_upper": _UX.copy(), "data_x_lower": _UX.copy(), "data_y_upper": _UY.copy(), "data_y_lower": _LY.copy(),
-            "strength_factor_for_upper_skin": 1.0,
+            "strength_factor_for_upper_skin": 1.25,        # not the neutral value: a factor applied twice or not at all shows
             "original_wingbox_airfoil_t_over_c": 0.12,
             "spar_thickness_cp": np.array([0.004, 0.01]),
             "skin_thickness_cp": np.array([0.005, 0.02]),
